@@ -17,6 +17,7 @@ Every move is judged against the labelling the workload gave that object (not th
 built from the same labelling is called again after its sibling was re-labelled.
 Composites are also written with a single move on the left of a composite; whatever class + and * hand back is judged
 by the composite clauses.
+Composites also get a member whose labelling covers only some of the particles: no atom may be displaced by two members.
 """
 from __future__ import annotations
 
@@ -36,7 +37,7 @@ ASSUMPTIONS = [
     "composite clauses are judged for composites whose elements share one labeling (m*n and m+m' over equal label arrays)",
     "pre-selected targets are existing non-negative labels",
 ]
-REQUIRED = {"composites_built_with_a_single_move_on_the_left": 100, "relabelled_live_moves": 100, "bystander_calls_after_a_sibling_was_relabelled": 100, "single_fail_veto_under_constraint": 100, "composite_calls_with_preselected_elements": 300, "single_calls": 3000, "single_success": 1500, "single_fail_no_eligible": 100, "single_fail_veto": 100, "composite_calls": 1500, "composite_partial": 100, "preselected_calls": 300, "molecule_moves": 500, "negative_label_rows_watched": 1000}
+REQUIRED = {"composite_calls_with_different_labellings": 100, "composites_built_with_a_single_move_on_the_left": 100, "relabelled_live_moves": 100, "bystander_calls_after_a_sibling_was_relabelled": 100, "single_fail_veto_under_constraint": 100, "composite_calls_with_preselected_elements": 300, "single_calls": 3000, "single_success": 1500, "single_fail_no_eligible": 100, "single_fail_veto": 100, "composite_calls": 1500, "composite_partial": 100, "preselected_calls": 300, "molecule_moves": 500, "negative_label_rows_watched": 1000}
 SHARD_TIMEOUT = {"quick": 900, "thorough": 3000}
 
 CALC_LOG: list = []
@@ -197,7 +198,20 @@ def judge_comp(rec, comp, ctx, pre, out):
     veto = any(VETO.get(id(m), "none") != "none" for m in moves)
     wit = {"n": len(moves), "labels": labelings[0].tolist(), "inner_targets": chosen, "reported_moved": getattr(comp, "number_of_moved_particles", None), "class": type(comp).__name__, "returned": bool(out), "veto": veto, "changed_rows": changed.tolist(), "operations": [type(m.operation).__name__ for m in moves]}
     if not shared:
-        rec.count("composite_unshared_labeling_not_judged")
+        # members with different labellings (a move over all atoms next to one over the adsorbates only): a particle is a
+        # set of atoms, and no atom may be displaced by two members of one call; the count clauses speak of one common
+        # set of eligible particles and are not judged here
+        rec.count("composite_calls_with_different_labellings")
+        if not ctx.atoms.constraints:
+            seen_rows: dict = {}
+            for k_, (_, tgt_, ok_, rows_) in enumerate(inner):
+                if not ok_:
+                    continue
+                for r_ in np.asarray(rows_).tolist():
+                    if r_ in seen_rows:
+                        rec.viol("C11/composite/particle-displaced-twice/members-with-different-labellings", f"atom {r_} was displaced by members {seen_rows[r_]} and {k_} of one composite call", {**wit, "labellings": [l.tolist() for l in labelings]})
+                        return
+                    seen_rows[r_] = k_
         return
     labels = labelings[0]
     if len(set(chosen)) != len(chosen):
@@ -335,7 +349,8 @@ def run(spec):
         elif r < 0.35:
             vmode = "random"
 
-        def new_move():
+        def new_move(labels=None):
+            labels = outer_labels() if labels is None else labels
             m = DisplacementMove(labels.copy() if rng.random() < 0.8 else [int(x) for x in labels], make_op(rng, n))  # now and then a plain list
             if vmode != "none":
                 m.check_move = veto_fn(rng, vmode)
@@ -344,6 +359,9 @@ def run(spec):
             KEEP.append(m)  # keep alive so ids stay unique
             intend_labels(m, labels)
             return m
+
+        def outer_labels():
+            return labels
 
         try:
             if mode < 0.5:
@@ -393,6 +411,14 @@ def run(spec):
                         for _ in range(k - 1):
                             comp = new_move() + comp
                     rec.count("composites_built_with_a_single_move_on_the_left")
+                if rng.random() < 0.15 and (labels >= 0).sum() >= 2 and labels.dtype.kind == "i":
+                    # one more member whose labelling covers only some of the particles (the others are spectators to it)
+                    sub = labels.copy()
+                    ids_ = np.unique(labels[labels >= 0])
+                    drop = rng.choice(ids_, size=int(rng.integers(1, len(ids_))), replace=False) if len(ids_) > 1 else ids_[:0]
+                    sub[np.isin(sub, drop)] = -1
+                    comp = comp + new_move(sub) if rng.random() < 0.5 else new_move(sub) + comp
+                    rec.count("composites_with_a_member_of_another_labelling")
                 if not isinstance(comp, CompositeDisplacementMove):
                     # whatever kind of object + and * hand back for displacement moves, it is "a composite of n
                     # displacement moves": judged by the same clauses, called through the harness instead of the class wrapper
